@@ -13,12 +13,21 @@ CHECKS = {
  "C01": dict(cat="exploration", engine="E3-enumeration", tech=TECH_ENUM,
    text="programs of <=2 (thorough <=3) clause calls from a 55-call alphabet x 27 finishers x 2 models x both placeholder dialects ('?' and '$n'), with each of 31 hostile value classes at every argument position (<=1-2 deviating slots), are built in DryRun; a SQL lexer that skips quoted text checks: placeholder count/sequence equals the bound values, no argument marker appears in the SQL text, every placeholder is governed by the column carrying the marker of the value bound to it (alignment), every argument is rendered; every <=1-call program is additionally executed on SQLite and checked at the recording driver",
    note="templates are well-formed; identifiers are not argument values; LIMIT/OFFSET binding checked only under the harness dialectors; internal deadline => exhaustive:false when the machine is loaded"),
+ "C02": dict(cat="exploration", engine="E3-enumeration", tech=TECH_ENUM,
+   text="a 27-row table with all combinations of NULL/values; 143 condition units (12 atoms x renderings: raw string, placeholder, two-argument, map, struct, clause expression, named argument; AND/OR units in 8 keyword spellings incl. lower case, tab, newline, ')OR('; redundant parentheses; grouped sub-builders; NOT; depth-3 units; primary-key forms; empty map / zero struct); every chain of 1-2 Where/Or/Not calls over all units, 3 calls over 13 (quick) / 41 (thorough) class representatives, plus inline conditions and model keys x Find/Count/Update/Delete; oracle: a reference evaluator with SQL three-valued logic over an in-memory copy of the table, compared as id sets (no SQL text inspected)",
+   note="SQLite; writes run in a transaction that is rolled back and verified; Not over an all-raw AND group follows gorm's pinned reading NOT (x AND y); 2 open known findings"),
+ "C04": dict(cat="fault_enumeration", engine="E1-choice-tree", tech=TECH_FAULT,
+   text="1417 canonical programs = all trees of nested Transaction blocks (<=4 blocks, depth <=4; write, children with reads between, write, outcome nil/error/panic; parent propagates or swallows/recovers) x 8 configurations {PrepareStmt, DisableNestedTransaction, SkipDefaultTransaction} x 2 dialectors (shipped SQLite, strict-savepoint wrapper): fault-free plus every single driver fault at BEGIN/COMMIT/SAVEPOINT/statement (quick), every pair (thorough); manual API: explicit-state BFS over sequences <=5/6 of write/SavePoint/RollbackTo/nested Transaction/Commit/Rollback with canonical state = table + save-point stack, every transition also with faults; oracle: snapshot-stack reference model, errors.Is / identical panic value, no leaked transaction/connection, follow-up write succeeds",
+   note="SQLite; faults on ROLLBACK / ROLLBACK TO never injected; 1 open known finding (shipped SQLite dialector swallows SAVEPOINT errors), 1 fixed"),
  "C05": dict(cat="fault_enumeration", engine="E1-choice-tree", tech=TECH_FAULT,
    text="52 write operations (Create/CreateInBatches/Save/Update(s)/Delete over nested graphs: belongs-to, has-one, has-many, many-to-many, polymorphic; FullSaveAssociations; Select-ed association deletes) x dialectors (RETURNING, LastInsertId; thorough adds PrepareStmt): the fault-free run fixes the driver calls and hook invocations, then every single fault (quick) / every set of up to 3 faults (thorough) at every driver call and hook invocation is enumerated; oracle: full dump of 9 tables equals the pre-state whenever a fault fired, the injected error is returned, no open transaction or checked-out connection",
    note="SQLite dialect; faults on ROLLBACK are never injected; a failed COMMIT rolls back; 2 open known findings (Save fallback spans two implicit transactions)"),
  "C07": dict(cat="model_checking", engine="E2-scheduler", tech=TECH_SCHED + "; the same schedules are re-run in a -race build whose hand-offs are invisible to ThreadSanitizer, so every explored schedule is also judged by the Go race detector",
    text="2-4 goroutines share one *gorm.DB (cold or warm schema cache, with/without PrepareStmt, DryRun and real SQLite) and run programs over a cyclic model family (belongs-to/has-many cycle, many-to-many, polymorphic has-one/has-many, embedded, serializer field, unrelated models): joins, preloads, nested preload, create with nested graph, update, delete, association mode, struct conditions, first-use Session{PrepareStmt}; every interleaving up to the preemption bound is executed on the instrumented schema.go/relationship.go/gorm.go/prepare_stmt.go; oracle per schedule: no deadlock/panic, every thread's observations (SQL+vars or rows, errors) equal the serial run, final rows and the canonical dump of all cached schemas equal the serial run; race pass: no data race between two gorm statements outside known_findings.json (28 pairs of 3 root causes recorded)",
    note="database/sql, SQLite and reflection are atomic steps; <=4 goroutines; races judged by Go's happens-before on the explored schedules; concurrent Transaction blocks on the same SQLite tables are outside the alphabet"),
+ "C08": dict(cat="exploration", engine="E3-enumeration", tech=TECH_ENUM,
+   text="soft-delete table with 27 live rows and 27 soft-deleted twins with identical values, a plain twin table and an all-rows twin table; every chain of 0-1 condition calls (incl. leading Or) over 143 units, 2 calls over class representatives, 3 calls x 4 core finishers x 22 finishers (Find/First/Take/Last/Count/Pluck/FindInBatches/Rows+ScanRows/Scan/Update/Updates/UpdateColumn/Delete/Delete twice/Joins/Preload/Association Find+Count), scoped vs plain twin and Unscoped vs all-rows twin, PropagateUnscoped on/off; after each scoped write every soft-deleted row is compared cell by cell; histories: BFS to closure (27 states, 324 transitions) + all histories of depth 3/4 over create/soft-delete/unscoped-delete/Save on 3 keys",
+   note="SQLite; 5 open known findings (raw AND/OR detection, NamedExpr, lone leading Or, Joins ON with Or, leading-Or semantics)"),
  "C09": dict(cat="exploration", engine="E3-enumeration", tech=TECH_ENUM,
    text="every chain of condition-free calls up to length 2-4 x every update/delete finisher x plain/soft-delete model x AllowGlobalUpdate modes is executed on SQLite behind a recording driver; oracle = error identity + empty driver log + cell-level table diff; the positive half inserts each of 16 real conditions at every position",
    note="SQLite dialect; alphabets of DESIGN.md §3 C09; recording driver wraps mattn/go-sqlite3"),
@@ -28,6 +37,9 @@ CHECKS = {
  "C11": dict(cat="exploration", engine="E3-enumeration", tech=TECH_ENUM,
    text="9 model families (has-one, has-many by value/pointer, belongs-to, many-to-many incl. composite left key, polymorphic, self-referential, composite (string,string)/(string,int) keys, nested path) x all data graphs within <=2-3 parents x <=2-3 children over a key alphabet built to collide ('a_b','b_c','_','nil','', 0, NULL) incl. one soft-deleted child x 386 loader/shape checks (Preload single/nested/Associations/with condition/with scope, association Joins, Association().Find; struct, []T, []*T, duplicated parents): loaded children per parent equal a reference join computed over the inserted rows",
    note="rows inserted by raw SQL; all-zero key tuples are 'no key' records and not compared; 3 open known findings with one root cause (utils.ToStringKey not injective)"),
+ "C12": dict(cat="model_checking", engine="E3-enumeration", tech=TECH_BFS,
+   text="12 configurations {has-one, has-many, belongs-to pointer FK, belongs-to value FK, many-to-many, polymorphic has-many} x {single parent, slice of 2 parents}; explicit-state BFS (depth <=4 quick, <=8 or closure thorough) over Append/Replace/Replace()/Delete/Clear/Count/Find and their Unscoped variants on new, saved, linked, unstored-keyed and duplicate targets; state = shortest call path replayed on gorm over SQLite, canonical form = 3 tables + normalised in-memory parents; a link-set reference model is stepped in lock-step: stored links, Count, Find ids, in-memory relation field, survival of target rows unless Unscoped, frame condition on the other relations",
+   note="level caps and a deadline stop large configurations early (exhaustive:false then); ambiguous shapes are guarded out and counted; 6 open known findings (association.go Unscoped belongs-to, many2many slice Replace, DO NOTHING batch scan)"),
  "C13": dict(cat="fault_enumeration", engine="E1-choice-tree", tech=TECH_FAULT,
    text="2661 programs (9 operations x 6 argument shapes of length 0-3 x child configurations by value/pointer x hooks/SkipHooks/UpdateColumn x own/caller transaction) are executed on SQLite with every hook invocation a choice point; every single hook failure (quick) and every pair (thorough) is enumerated; oracle: per-record hook multiset and order relative to the statement in the driver log, hooks run inside the operation's transaction (driver-level BEGIN window), failing hook => error returned, no later phase, all tables incl. the hooks' own marker writes equal the pre-state, SetColumn values are the values stored",
    note="SQLite dialect; hook logging through a Logger wrapper; assumptions listed in evidence; Save of a non-zero non-existing key, CreateInBatches and SkipDefaultTransaction are outside the alphabet"),
